@@ -1007,9 +1007,32 @@ static double bell_dmin(double jm, double am, double v0, double v1)
     return 0.5 * (v0 + v1) * (tj2 + dv / am);
 }
 
+/* The velocity limit "switched off": vm = 1e30, DBL_MAX / 8 or 2^k times the boundary velocities with k beyond the precision of the type, while v0 and v1 are
+   ordinary and DIFFERENT - boundary velocities drawn as fractions of vm never get there. Margins such as vm - v then round to vm itself (seeded change C14-N:
+   "equal margins" taken for "equal boundary velocities", so the braking phase is planned as a copy of the run-up). */
+static void make_bell_unlimited(vf_rng *r, double in[7])
+{
+    int const dir = vf_chance(r, 1, 2) ? 1 : -1;
+    double const jm = vf_logu(r, -2, 3), am = vf_logu(r, -2, 3);
+    double const v0 = vf_chance(r, 1, 4) ? 0 : vf_logu(r, -2, 2) * (vf_chance(r, 1, 6) ? -1 : 1), v1 = vf_chance(r, 1, 4) ? 0 : vf_logu(r, -2, 2) * (vf_chance(r, 1, 6) ? -1 : 1);
+    double const big = fabs(v0) > fabs(v1) ? fabs(v0) : fabs(v1);
+    double vm, d = vf_logu(r, -2, 4), p0, p1;
+    switch (vf_below(r, 4))
+    {
+    case 0: vm = 1e30; break;
+    case 1: vm = DBL_MAX / 8; break;
+    case 2: vm = ldexp(big > 0 ? big : 1, 54 + (int)vf_below(r, 40)); break;
+    default: vm = ldexp(big > 0 ? big : 1, 50 + (int)vf_below(r, 6)); break; /* around the precision: margins round, but not to vm */
+    }
+    place(r, d, dir, &p0, &p1);
+    in[0] = jm; in[1] = am; in[2] = vm; in[3] = p0; in[4] = p1; in[5] = dir * v0; in[6] = dir * v1;
+    VF_COUNT("bell-requests-with-the-velocity-limit-switched-off");
+}
+
 static void make_bell(vf_rng *r, double in[7])
 {
     if (vf_chance(r, 1, 6)) { make_round(r, in, 1); return; }
+    if (vf_chance(r, 1, 12)) { make_bell_unlimited(r, in); return; }
     unsigned style = (unsigned)vf_below(r, 24);
     int dir = vf_chance(r, 1, 2) ? 1 : -1;
     double jm = vf_logu(r, -3, 3), am = vf_logu(r, -3, 3), vm = vf_logu(r, -3, 3);
